@@ -780,6 +780,9 @@ def answer (stream : String) (f : Array String) : Ans :=
     let r := FdDriver.run (g 7 = "script") ((g 0).toNat?.getD 0) (FdDriver.parseItems (g 1)) (FdDriver.strSet (g 2)) (FdDriver.strSet (g 3))
       (FdDriver.strSet (g 4)) (FdDriver.strSet (g 5)) (FdDriver.parseFiles (g 6))
     { m := r.m, s := r.s, guard := if r.cls = "-" then "1" else "0", cls := r.cls }
+  | "fdorder" =>
+    let r := FdDriver.orderRun ((g 0).splitOn ",") (((g 1).splitOn ",").filterMap String.toNat?)
+    { m := r.1, s := r.2, guard := "1" }
   | _ => { m := "UNKNOWN-STREAM" }
 
 partial def loop (h : IO.FS.Stream) (out : IO.FS.Stream) : IO Unit := do
